@@ -73,6 +73,10 @@ def run(ctx, args):
     if len(hists) != want:
         raise common.Machinery(f"expected {want} histories from TLC, got {len(hists)}")
     rnd = random.Random(ctx.seed)
+    if not quick:
+        # all histories of length 3 would be nreq^3 fresh processes per hash seed: every history of length <= 2 and a seeded sample of 2500 of length 3
+        three = [h for h in hists if len(h) == 3]
+        hists = [h for h in hists if len(h) < 3] + rnd.sample(three, min(2500, len(three)))
     if quick:
         # every history of length <= 2, plus a seeded sample of length-3 histories
         hists += [[rnd.randint(1, nreq) for _ in range(3)] for _ in range(120)]
@@ -92,7 +96,7 @@ def run(ctx, args):
         if not os.path.exists(os.path.join(cwd, name + ".nslir")):
             raise common.Machinery(f"could not build {name}.nslir with nslc.py: " + p.stdout[-200:] + p.stderr[-200:])
     seeds_single = [0, 1, 2, 5, 7] if quick else [0, 1, 2, 3, 4, 5, 6, 7, 10, 42, 1234, 99999]
-    seeds_long = [0, 7] if quick else [0, 1, 7, 42]
+    seeds_long = [0, 7] if quick else [0, 7, 42]
     worker = str(common.VERIF / "harness" / "c18_worker.py")
     jobs = []
     for k, h in enumerate(hists):
